@@ -294,6 +294,39 @@ def split_entry(entry):
   return entry, 1
 
 
+class _B:
+  """minimal stand-in for schedules.Built"""
+  def __init__(self):
+    self.g = None
+    self.err = None
+    self.stage = None
+
+  @property
+  def outcome(self):
+    if self.err is None:
+      return "ok:{}".format(self.g.version)
+    return schedules.err_class(self.err)
+
+
+def build_on_converted(lines):
+  """The lines arrive, one by one, in a Gfa that was produced by to_gfa2()
+  of a GFA1 graph (a converted Gfa is a Gfa like any other)."""
+  b = _B()
+  try:
+    with guard(schedules.BUILD_BUDGET_S):
+      src = gfapy.Gfa(["S\tqq\t*\tLN:i:4", "S\tqr\tACGT",
+                       "L\tqq\t+\tqr\t-\t1M"], version="gfa1")
+      b.g = src.to_gfa2()
+      for i, l in enumerate(lines):
+        b.stage = "add_line#{}".format(i)
+        b.g.add_line(l)
+      b.stage = "validate"
+      b.g.validate()
+  except Exception as e:
+    b.err = e
+  return b
+
+
 def run_order(entry, lines, scratch):
   entry, vl = split_entry(entry)
   return _run_order(entry, lines, scratch, vl)
@@ -301,7 +334,10 @@ def run_order(entry, lines, scratch):
 
 def _run_order(entry, lines, scratch, vl=1):
   """Build one order; returns (outcome, observation or None, detail)."""
-  b = schedules.build(entry, lines, vlevel=vl, scratch=scratch)
+  if entry == "conv":
+    b = build_on_converted(lines)
+  else:
+    b = schedules.build(entry, lines, vlevel=vl, scratch=scratch)
   if b.err is not None:
     return b.outcome, None, "{} at {}: {}".format(
         type(b.err).__name__, b.stage, str(b.err).split("\n")[0][:120])
@@ -348,6 +384,10 @@ def judge(doc, order_lines, entry, base, pred_form, scratch):
     if d is not None:
       out.append(("order-dependent", d[0], {"identity order": d[1]},
                   {"this order": d[2]}))
+  if entry == "conv":
+    # (the Gfa also holds the converted lines: orders are compared with each
+    # other, the model describes the added lines only)
+    return out, oc, ob
   d = first_difference(pred_form, strip(ob))
   if d is not None:
     out.append(("model-disagrees", d[0], {"reference model": d[1]},
@@ -495,6 +535,9 @@ def run(ctx):
   with schedules.Scratch("c03_") as scratch:
     for doc_id, lines, fam in docs:
       ents = entries_seed if fam == "seed" else entries_small
+      if doc_id in ("seed:E", "seed:G", "seed:O", "seed:U", "seed:F"):
+        # ... and arriving in a Gfa that to_gfa2() produced
+        ents = tuple(ents) + ("conv",)
       if doc_id == "seed:P-cigar":
         ents = tuple(ents) + ("list@v0", "inc@v0", "list@v3")
       elif doc_id == "seed:lazy":
